@@ -6,9 +6,13 @@
 
 mod e1_checks;
 mod e1b_checks;
+mod e2_c03;
+mod e2_c06;
+mod e2_c09;
 mod e3_codec;
 mod e3_config;
 mod e3_window;
+mod loopback;
 mod modea;
 mod modeb;
 mod monitors;
@@ -102,6 +106,9 @@ fn worker_dispatch(engine: &str) -> Box<dyn Fn(&Value) -> Value> {
     match engine {
         "modea" => Box::new(e1_checks::modea_cell),
         "modeb" => Box::new(e1b_checks::modeb_cell),
+        "c03" => Box::new(e2_c03::cell),
+        "c06" => Box::new(e2_c06::cell),
+        "c09" => Box::new(e2_c09::cell),
         "c10" => Box::new(e3_codec::c10_cell),
         "c11" => Box::new(e3_codec::c11_cell),
         "c17" => Box::new(e3_config::cell),
@@ -114,7 +121,10 @@ fn run_check(id: &str, tier: Tier) -> Option<Outcome> {
     Some(match id {
         "C01" => e1_checks::c01_check(tier),
         "C02" => e1_checks::c02_check(tier),
+        "C03" => e2_c03::check(tier),
         "C04" => e1b_checks::c04_check(tier),
+        "C06" => e2_c06::check(tier),
+        "C09" => e2_c09::check(tier),
         "C15" => e1b_checks::c15_check(tier),
         "C07" => e1_checks::c07_check(tier),
         "C08" => e1_checks::c08_check(tier),
@@ -160,6 +170,9 @@ fn replay(path: &str) -> i32 {
     let text = match r["engine"].as_str().unwrap_or("") {
         "modea" => e1_checks::replay(r),
         "modeb" => e1b_checks::replay(r),
+        "e2_c03" => e2_c03::replay(r),
+        "e2_c06" => e2_c06::replay(r),
+        "e2_c09" => e2_c09::replay(r),
         "e3_codec" => e3_codec::replay(r),
         "e3_config" => e3_config::replay(r),
         "e3_window" => e3_window::replay(r),
